@@ -105,6 +105,8 @@ type Features struct {
 	// effect on that identifier's variable (it zeroes it); the directive must
 	// have read the identifier before.
 	MutAfter bool `json:"mut_after,omitempty"`
+	// AssignAfter: the caller changes the identifier argument's variable right after the directive returned
+	AssignAfter bool `json:"assign_after,omitempty"`
 	// ResultName: the variable receiving the first cff.Results value has this name.
 	ResultName string `json:"result_name,omitempty"`
 	// Pad: number of comment lines inserted before the enclosing function
